@@ -236,3 +236,46 @@ def check_constants(ctx, rule, v):
                                       'd[i] = %s * d[i-1]: the range polynomial uses a radix other than 2' % c, ctx.where(b, bb))
     if not found:
         rep.idiom_absent(rule, rule + '/radix', 'no `d.push(K * d.last())` idiom in the verifier (radix not decided)')
+
+
+def check_squaring_chains(ctx, rule, v):
+    """an exponent that is a power of two may be reached by repeated squaring instead of a generic exponentiation: a loop that carries one
+    Scalar X with the step X <- X*X computes init^(2^trips).  The forms that mean b^(2^k) are `X = b; k times` -- and `X = b*b; k-1 times`
+    only where k >= 1 is established, because a range `1..k` runs zero times for k = 0 *and* for k = 1: the chain that starts one squaring
+    ahead is wrong exactly for k = 0 (a single-element vector: bit length 1, one commitment).  Reported: a squaring chain whose range
+    starts above 0 with no dominating guard that the end is at least the start."""
+    rep = ctx.rep
+    from .panics import path_atoms
+    n = 0
+    for h, lp in sorted(ctx.loops(v).items()):
+        it = lp.iter_term
+        while it is not None and it.tag in ('mut', 'enumerate'):
+            it = it[1]
+        rng = getattr(lp, 'index_range', None) or it
+        if rng is None or rng.tag != 'range':
+            continue
+        carried = carried_scalars(ctx, v, lp)
+        if len(carried) != 1:
+            continue
+        polys, info = step_polys(ctx, v, lp, carried)
+        if polys is None:
+            continue
+        X = carried[0]
+        nm = 'X%d' % X
+        if polys.get(X) != {(nm, nm): 1}:
+            continue
+        n += 1
+        lo, hi = rng[1], rng[2]
+        key = '%s/squaring-chain/%s' % (rule, v.local_name(X) or X)
+        lo_c = lo[1] if lo.tag == 'const' and isinstance(lo[1], int) else None
+        if lo_c == 0:
+            rep.ok(rule, key, 'squaring chain `%s` runs once per unit of %s from its initial value' % (v.local_name(X), short(hi, 60)), ctx.where(v, h))
+            continue
+        atoms = path_atoms(ctx, v, h)
+        hc = canon(hi)
+        guarded = lo_c is not None and any(a[0] == 'cmp' and a[1] == 'Le' and a[3] == hc and a[2].isdigit() and int(a[2]) >= lo_c for a in atoms)
+        rep.check(guarded, rule, key, 'squaring chain `%s` over %s..%s with %s >= %s established' % (v.local_name(X), canon(lo), hc, hc, canon(lo)),
+                  'squaring chain `%s` runs over the range %s..%s, which is empty both when %s equals %s and when it is smaller: started one squaring ahead, it yields '
+                  'init^(2^(k-%s)) only for k >= %s and the un-squared start value is never produced (k = 0: a one-element vector)' % (
+                      v.local_name(X), canon(lo), hc, hc, canon(lo), canon(lo), canon(lo)), ctx.where(v, h))
+    return n
